@@ -163,11 +163,12 @@ def run(report, tier, seed, driver, proofs_ok):
             r, _ = gen.gen_iam_resource(rng, tag=f"x{i}", with_condition=True)
             t["Resources"]["Iam"] = r
         cases.append(("damaged", damage(rng, t), 10.0))
-    depths = [50, 200, 400, 600, 1000, 3000] if thorough else [50, 200, 400, 1000]
+    depths = [50, 200, 400, 600, 1000, 3000, 5000, 20000] if thorough else [50, 400, 1000, 5000]
     deep_ops = []
     for d in depths:
         for kind in ("obj", "arr"):
-            for where in ("properties", "metadata"):
+            for where in ("properties", "metadata", "type", "resource-condition", "resource-member", "resource", "modelled-property", "policy-action", "condition-value",
+                          "parameter-default", "parameter-type", "conditions", "mappings", "outputs", "description", "function-body", "resources"):
                 deep_ops.append({"op": "parse_deep", "kind": kind, "depth": d, "where": where})
     for w in ([1000, 20000, 200000] if thorough else [1000, 20000]):
         cases.append(("wide-list", {"Resources": {"R": {"Type": "Custom::Wide", "Properties": {"P": ["x"] * w}}}}, 30.0))
